@@ -4,17 +4,27 @@ import RtenVerif.Model.Generator
 /-!
 `model_C32` line protocol.
 
-Request: `kv=<0|1> [cfg=<ignored>] <op> <op> …` with ops
+Request: `kv=<0|1> cfg=<layout> <op> <op> …` with ops
 `W:<csv>` with_prompt, `A:<csv>` append_prompt, `C` clear_prompt, `P` process_prompt,
-`N:<tok>` next (sampler returns `tok`), `E` next with a filter that removes every candidate.
+`N:<tok>` next (sampler returns `tok`), `E` next with a filter that removes every candidate,
+`PF` / `NF` process_prompt / next where `Model::run` fails.
+`<layout>` is ignored except for the letters `a<0|1>` (model has an `attention_mask` input) and
+`e<0|1>` (model has encoder caches and a `use_cache_branch` input), which only select what is
+printed.
 
 Answer: one section per op, joined by ` | `:
 `<call> <filter> <outcome> in=<csv> prev=<csv> kv=<len|->` where
-`<call>` = `R(<csv>@<start>;c<id>:<len>;L<0|1>)` or `-` (`<start>` is `_` when no token is fed:
-the position range is then empty and the start is not observable in the call; cache `c-` when the model has no
-KV inputs; an empty cache is always printed `c0:0` because empty caches are indistinguishable),
+`<call>` = `R(<csv>@<start>;<cache>;L<0|1>;m<mask len|->;u<flag|->;e<encoder cache id|->;<ok|FAIL>)`
+or `-` (`<start>` is `_` when no token is fed: the position range is then empty and the start
+is not observable in the call; `<cache>` = `c<id>:<len>`, `c-` when the model has no KV inputs,
+`cMISSING` when it has but none was supplied; an empty cache is always printed `c0:0` because
+empty caches are indistinguishable),
 `<filter>` = `F(<prev_tokens seen by the filter>)` or `-`,
-`<outcome>` = `ok` | `tok=<t>` | `err=empty` | `panic`.
+`<outcome>` = `ok` | `tok=<t>` | `err=empty` | `err=run` | `panic`.
+
+`api <names…>`: the public methods of `Generator` found in the source (plus `next`); the answer
+is `api-ok` iff they are exactly the ones this model classifies (history operations, observers,
+configuration), so a new method shows up as a disagreement.
 -/
 namespace RtenVerif.Driver.C32
 open RtenVerif.Driver RtenVerif.Generator
@@ -26,21 +36,32 @@ def parseOp (w : String) : Option Op :=
   if w == "C" then some .clear
   else if w == "P" then some .process
   else if w == "E" then some .nextEmpty
+  else if w == "PF" then some .processFail
+  else if w == "NF" then some .nextFail
   else match w.splitOn ":" with
     | ["W", l] => (parseNatList "," l).map .withPrompt
     | ["A", l] => (parseNatList "," l).map .append
     | ["N", t] => t.toNat?.map .next
     | _ => none
 
-def showCache : Option (Nat × Nat) → String
+def showCache : Option (Option (Nat × Nat)) → String
   | none => "c-"
-  | some (id, len) => if len == 0 then "c0:0" else s!"c{id}:{len}"
+  | some none => "cMISSING"
+  | some (some (id, len)) => if len == 0 then "c0:0" else s!"c{id}:{len}"
 
-def showCall : Option Call → String
+structure Show where
+  attn : Bool
+  enc : Bool
+
+def showCall (sh : Show) : Option Call → String
   | none => "-"
   | some c =>
     let start := if c.toks.isEmpty then "_" else toString c.start
-    s!"R({showNats "," c.toks}@{start};{showCache c.cacheIn};L{b01 c.logits})"
+    let m := if sh.attn then toString c.attn else "-"
+    let u := if sh.enc then b01 c.flag else "-"
+    let e := if sh.enc then toString c.encIn else "-"
+    let ok := if c.ok then "ok" else "FAIL"
+    s!"R({showNats "," c.toks}@{start};{showCache c.cacheIn};L{b01 c.logits};m{m};u{u};e{e};{ok})"
 
 def showFilt : Option (List Nat) → String
   | none => "-"
@@ -51,25 +72,43 @@ def showOut : Outcome → String
   | .tok t => s!"tok={t}"
   | .errEmpty => "err=empty"
   | .panicNoRow => "panic"
+  | .errRun => "err=run"
 
-def showKv : Option (Nat × Nat) → String
-  | none => "-"
-  | some (_, len) => toString len
+def showKv : Option (Option (Nat × Nat)) → String
+  | some (some (_, len)) => toString len
+  | _ => "-"
 
-def section_ (o : StepOut) : String :=
-  s!"{showCall o.call} {showFilt o.filt} {showOut o.out} in={showNats "," o.st.inputIds} prev={showNats "," o.st.prev} kv={showKv o.st.kv}"
+def section_ (sh : Show) (o : StepOut) : String :=
+  s!"{showCall sh o.call} {showFilt o.filt} {showOut o.out} in={showNats "," o.st.inputIds} prev={showNats "," o.st.prev} kv={showKv o.st.kv}"
 
-def trace (r : Rule) : State → List Op → List String
+def trace (sh : Show) (r : Rule) : State → List Op → List String
   | _, [] => []
-  | s, op :: ops => let o := step r s op; section_ o :: trace r o.st ops
+  | s, op :: ops => let o := step r s op; section_ sh o :: trace sh r o.st ops
+
+/-- Public API of `Generator` as classified by this model. -/
+def historyOps : List String := ["with_prompt", "append_prompt", "clear_prompt", "process_prompt", "next"]
+def observers : List String := ["prompt", "prev_tokens", "kv_cache_len"]
+def configuration : List String :=
+  ["from_model", "from_model_config", "with_constant_input", "with_varying_input",
+   "with_logits_filter", "with_sampler", "with_run_options"]
+
+def apiAnswer (names : List String) : String :=
+  let known := historyOps ++ observers ++ configuration
+  let extra := names.filter (fun n => !known.contains n)
+  let missing := known.filter (fun n => !names.contains n)
+  if extra.isEmpty && missing.isEmpty then "api-ok"
+  else s!"api-changed unmodelled=[{joinWith "," extra}] missing=[{joinWith "," missing}]"
 
 def handle (line : String) : String :=
   match words line with
+  | "api" :: names => apiAnswer names
   | kvw :: rest =>
     let hasKv? := if kvw == "kv=1" then some true else if kvw == "kv=0" then some false else none
     let opsw := rest.filter (fun w => !w.startsWith "cfg=")
+    let cfg := (rest.find? (·.startsWith "cfg=")).getD ""
+    let sh : Show := { attn := (cfg.splitOn "a1").length > 1, enc := (cfg.splitOn "e1").length > 1 }
     match hasKv?, opsw.mapM parseOp with
-    | some hasKv, some ops => joinWith " | " (trace currentRule (State.init hasKv) ops)
+    | some hasKv, some ops => joinWith " | " (trace sh currentRule (State.init hasKv) ops)
     | _, _ => "bad-request"
   | _ => "bad-request"
 
